@@ -152,8 +152,100 @@ fn pseudoprime(rng: &mut Rng, iters: u64) {
     }
 }
 
+/// Dividers / Inverter against plain integer arithmetic
+fn dividers(rng: &mut Rng, iters: u64) {
+    use yamaquasi::arith::{Dividers, Inverter};
+    for it in 0..iters {
+        // a prime (or at least odd) p below 2^30, biased to small and to the top of the range
+        let mut p = match it % 4 {
+            0 => 3 + 2 * (rng.next() % 100),
+            1 => (1u64 << 30) - 1 - 2 * (rng.next() % 1000),
+            2 => (rng.next() % (1 << 16)) | 1,
+            _ => (rng.next() % (1 << 30)) | 1,
+        } as u32;
+        while !is_prime_td(p as u64) {
+            p += 2;
+            if p >> 30 != 0 {
+                p = 3;
+            }
+        }
+        let desc = format!("p={p}");
+        let r = catch_unwind(AssertUnwindSafe(|| {
+            let d = Dividers::new(p);
+            let pp = p as u64;
+            for j in 0..8 {
+                let n = match j {
+                    0 => u64::MAX,
+                    1 => u64::MAX - (u64::MAX % pp),
+                    2 => (u64::MAX - (u64::MAX % pp)).wrapping_sub(1),
+                    3 => (1u64 << 63) - ((1u64 << 63) % pp),
+                    4 => pp * (rng.next() % 1000),
+                    _ => rng.word(),
+                };
+                let (q, r) = d.divmod64(n);
+                if q != n / pp || r != n % pp {
+                    return Some(format!("divmod64({n}) = ({q},{r})"));
+                }
+                let n63 = n >> 1;
+                if d.modu63(n63) != n63 % pp {
+                    return Some(format!("modu63({n63}) = {}", d.modu63(n63)));
+                }
+                let n16 = n as u16;
+                if d.modu16(n16) as u64 != (n16 as u64) % pp {
+                    return Some(format!("modu16({n16}) = {}", d.modu16(n16)));
+                }
+                let ni = n as i64;
+                if d.modi64(ni) as i128 != (ni as i128).rem_euclid(pp as i128) {
+                    return Some(format!("modi64({ni}) = {}", d.modi64(ni)));
+                }
+                let n128 = ((rng.word() as u128) << 64) | n as u128;
+                if d.mod_u128(n128) as u128 != n128 % pp as u128 {
+                    return Some(format!("mod_u128({n128}) = {}", d.mod_u128(n128)));
+                }
+                let big = Uint::from_digits({
+                    let mut dd = [0u64; 16];
+                    for w in dd.iter_mut().take(1 + (rng.next() % 16) as usize) {
+                        *w = rng.word();
+                    }
+                    dd
+                });
+                let want = (big % Uint::from(pp)).digits()[0];
+                if d.mod_uint(&big) != want {
+                    return Some(format!("mod_uint({big}) = {}", d.mod_uint(&big)));
+                }
+                let (bq, br) = d.divmod_uint(&big);
+                if br != want || bq != big / Uint::from(pp) {
+                    return Some(format!("divmod_uint({big}) = ({bq},{br})"));
+                }
+            }
+            if p >> 28 == 0 {
+                let inv = Inverter::new(p);
+                for j in 0..6 {
+                    let x = match j {
+                        0 => 1,
+                        1 => p - 1,
+                        2 => (p + 1) / 2,
+                        _ => 1 + (rng.next() % (pp - 1)) as u32,
+                    };
+                    let y = inv.invert(x, &d);
+                    if (x as u64 * y as u64) % pp != 1 || y >= p {
+                        return Some(format!("invert({x}) = {y}"));
+                    }
+                }
+            }
+            None
+        }));
+        match r {
+            Ok(None) => {}
+            Ok(Some(m)) => fail("dividers", format!("{desc}: {m}")),
+            Err(_) => fail("dividers", format!("{desc}: panic")),
+        }
+    }
+}
+
 pub fn run(case: &str, rng: &mut Rng, iters: u64) -> bool {
     match case {
+        "dividers" => dividers(rng, iters),
         "isprime64" => isprime64(rng, iters),
         "pseudoprime" => pseudoprime(rng, iters),
         _ => return false,
